@@ -202,8 +202,10 @@ func c04errFields(ef, seq int, pad string) []zap.Field {
 type c04FLog struct {
 	sink    int // see c04buildFLog
 	console bool
-	opts    int // 1 AddCaller+AddStacktrace(Error); 2 failing hook; 4 failing ErrorOutput; 8 With-context of failing fields; 16 Development
+	opts    int // 1 AddCaller+AddStacktrace(Error); 2 failing hook; 4 failing ErrorOutput; 8 With-context of failing fields; 16 Development; 32 behind a forwarding wrapper core (c04_wrap.go)
 }
+
+const c04foptWrap = 32
 
 const c04nFSinks = 10
 
@@ -233,7 +235,7 @@ type c04Faults struct {
 	logs    []c04FLog
 	pre     []c04FOp
 	conc    [][]c04FOp
-	tee     int  // hidden failing branch of the judged tee: 0 none, 1 first, 2 last
+	tee     int  // hidden failing branch of the judged tee: 0 none, 1 first, 2 last, 3 after the first healthy branch
 	teeMode int  // 0 Lock(always) 1 Lock(alt) 2 Lock(first) 3 Combine(short) 4 Buffered(alt) 5 Lock(sync error) 6 raw alt
 	preLate bool // prologue runs while the goroutines derive their loggers (else before they are started)
 }
@@ -282,7 +284,7 @@ func c04faultsSx(cs *c04Case, errsBefore int64) SX {
 			}
 		}
 	}
-	return L(Z(errsBefore), L(logs...), L(pre...), L(conc...), L(inl...), L(I(f.tee), I(f.teeMode)), L(efs...))
+	return L(Z(errsBefore), L(logs...), L(pre...), L(conc...), L(inl...), L(I(f.tee), I(f.teeMode), I(cs.wrap)), L(efs...))
 }
 
 func (cs *c04Case) faultTag() string {
@@ -305,8 +307,11 @@ func (cs *c04Case) faultTag() string {
 	sinks := make([]string, len(f.logs))
 	for i, l := range f.logs {
 		sinks[i] = strconv.Itoa(l.sink)
+		if l.opts&c04foptWrap != 0 {
+			sinks[i] += "w"
+		}
 	}
-	return fmt.Sprintf("sinks:%s;pre:%d;conc:%d;inline:%d;tee:%d/%d;errfields:%d", strings.Join(sinks, "+"), len(f.pre), nc, inl, f.tee, f.teeMode, efs)
+	return fmt.Sprintf("sinks:%s;pre:%d;conc:%d;inline:%d;tee:%d/%d;wrap:%d;errfields:%d", strings.Join(sinks, "+"), len(f.pre), nc, inl, f.tee, f.teeMode, cs.wrap, efs)
 }
 
 // ---------------------------------------------------------------- live fault loggers
@@ -372,6 +377,9 @@ func c04buildFLog(d c04FLog, id string, seed uint64) *c04FLive {
 	default: // tee: healthy branch first, failing (other encoder) second
 		core = zapcore.NewTee(zapcore.NewCore(c04fenc(d.console, d.opts), zapcore.Lock(noise()), zapcore.InfoLevel),
 			zapcore.NewCore(c04fenc(!d.console, 0), zapcore.Lock(&c04Bad{mode: c04bmAlt}), zapcore.InfoLevel))
+	}
+	if d.opts&c04foptWrap != 0 { // a tee behind it is written through multiCore.Write
+		core = &c04Fwd{core}
 	}
 	var eo zapcore.WriteSyncer = zapcore.Lock(&c04Rec{id: id + "-eo"})
 	if d.opts&4 != 0 {
